@@ -117,7 +117,6 @@ theorem sound_halving : Sound suggestHalving := by
       · refine ⟨k * 2 ^ u, Or.inr ((mem_mergeUnique _ _ _).2 (Or.inr (List.mem_map.mpr ⟨u, by simp, rfl⟩))),
           t - k * 2 ^ u, Or.inr ((mem_mergeUnique _ _ _).2 (Or.inl (by simp))), by omega⟩
 
-#print axioms sound_halving
 
 /-- the two ensemble heuristics are sound -/
 theorem sound_ensemble1 : Sound (suggestFirst [suggestHalving, suggestDelta]) :=
